@@ -1,0 +1,283 @@
+//! Verification hooks (cargo feature `verif`, off by default).
+//!
+//! Nothing in here runs unless a harness has been installed with `install`.
+//! The harness sees plain data only (names, indices, byte strings), never
+//! n2's own types, so that it cannot accidentally share logic with n2.
+
+use crate::{
+    densemap::Index,
+    graph::{Build, BuildId, Graph, Hashes},
+    process::Termination,
+    progress::Progress,
+    task::TaskResult,
+    work::StateCounts,
+};
+use std::cell::RefCell;
+
+/// One build statement of the loaded graph, by name.
+#[derive(Debug, Clone, Default)]
+pub struct BuildDump {
+    pub location: String,
+    pub outs: Vec<String>,
+    pub explicit_outs: usize,
+    pub ins: Vec<String>,
+    pub explicit_ins: usize,
+    pub implicit_ins: usize,
+    pub order_only_ins: usize,
+    pub cmdline: Option<String>,
+    pub desc: Option<String>,
+    pub depfile: Option<String>,
+    pub parse_showincludes: bool,
+    pub rspfile: Option<(String, String)>,
+    pub pool: Option<String>,
+    pub hide_success: bool,
+    pub hide_progress: bool,
+    /// Discovered deps as loaded from the db (or set by the last run).
+    pub discovered: Vec<String>,
+    /// Hash loaded from the db, if any.
+    pub hash: Option<u64>,
+}
+
+#[derive(Debug, Clone, Default)]
+pub struct GraphDump {
+    /// (name, producing build index)
+    pub files: Vec<(String, Option<usize>)>,
+    pub builds: Vec<BuildDump>,
+    pub defaults: Vec<String>,
+    pub pools: Vec<(String, usize)>,
+    pub builddir: Option<String>,
+}
+
+#[derive(Debug, Clone, Copy, PartialEq, Eq)]
+pub enum SimTermination {
+    Success,
+    Failure,
+    Interrupted,
+}
+
+/// What the harness says happened to a command.
+#[derive(Debug, Clone)]
+pub struct SimFinished {
+    pub build: usize,
+    pub termination: SimTermination,
+    pub output: Vec<u8>,
+    pub discovered_deps: Option<Vec<String>>,
+}
+
+/// Scheduler state at the top of the `Work::run` loop.
+#[derive(Debug, Clone, Default)]
+pub struct LoopSnap {
+    /// Per build index: 0 unknown, 1 want, 2 ready, 3 queued, 4 running, 5 done, 6 failed.
+    pub states: Vec<u8>,
+    /// want, ready, queued, running, done, failed.
+    pub counts: [usize; 6],
+    pub total_pending: usize,
+    /// (name, running, depth, queued)
+    pub pools: Vec<(String, usize, usize, usize)>,
+    pub runner_running: usize,
+}
+
+#[derive(Debug, Clone, Copy, PartialEq, Eq)]
+pub enum DbWriteKind {
+    Signature,
+    Path,
+    Build,
+}
+
+/// Payload of the unwinding panic used to abandon an invocation.
+#[derive(Debug)]
+pub struct Abandon(pub &'static str);
+
+pub trait Harness {
+    fn work_new(&mut self, _graph: &GraphDump) {}
+    fn task_start(&mut self, _build: usize) {}
+    /// Decide which running command finishes next.
+    fn task_wait(&mut self) -> SimFinished;
+    fn loop_top(&mut self, _snap: &LoopSnap) {}
+    /// Called when the `Work::run` loop ended normally (not on early returns).
+    fn run_end(&mut self, _snap: &LoopSnap) {}
+    /// Called before n2 appends `bytes` to the db.  Returning Some(n) writes
+    /// only the first n bytes and abandons the invocation.
+    fn db_write(&mut self, _kind: DbWriteKind, _bytes: &[u8]) -> Option<usize> {
+        None
+    }
+    fn progress_update(&mut self, _counts: [usize; 6]) {}
+    fn progress_task_started(&mut self, _build: usize) {}
+    fn progress_task_output(&mut self, _build: usize, _line: &[u8]) {}
+    fn progress_task_finished(&mut self, _build: usize, _termination: SimTermination) {}
+    fn progress_log(&mut self, _msg: &str) {}
+}
+
+thread_local! {
+    static HARNESS: RefCell<Option<Box<dyn Harness>>> = const { RefCell::new(None) };
+}
+
+pub fn install(h: Box<dyn Harness>) {
+    HARNESS.with(|c| *c.borrow_mut() = Some(h));
+}
+
+pub fn uninstall() -> Option<Box<dyn Harness>> {
+    HARNESS.with(|c| c.borrow_mut().take())
+}
+
+pub fn active() -> bool {
+    HARNESS.with(|c| c.borrow().is_some())
+}
+
+pub(crate) fn with<R>(f: impl FnOnce(&mut dyn Harness) -> R) -> Option<R> {
+    HARNESS.with(|c| {
+        let mut b = c.borrow_mut();
+        b.as_mut().map(|h| f(h.as_mut()))
+    })
+}
+
+fn term_to_sim(t: &Termination) -> SimTermination {
+    match t {
+        Termination::Success => SimTermination::Success,
+        Termination::Failure => SimTermination::Failure,
+        Termination::Interrupted => SimTermination::Interrupted,
+    }
+}
+
+pub(crate) fn sim_to_term(t: SimTermination) -> Termination {
+    match t {
+        SimTermination::Success => Termination::Success,
+        SimTermination::Failure => Termination::Failure,
+        SimTermination::Interrupted => Termination::Interrupted,
+    }
+}
+
+pub(crate) fn dump_build(graph: &Graph, hashes: Option<&Hashes>, id: BuildId) -> BuildDump {
+    let b = &graph.builds[id];
+    let names = |ids: &[crate::graph::FileId]| -> Vec<String> {
+        ids.iter().map(|&f| graph.file(f).name.clone()).collect()
+    };
+    BuildDump {
+        location: format!("{}", b.location),
+        outs: names(b.outs()),
+        explicit_outs: b.outs.explicit,
+        ins: names(&b.ins.ids),
+        explicit_ins: b.ins.explicit,
+        implicit_ins: b.ins.implicit,
+        order_only_ins: b.ins.order_only,
+        cmdline: b.cmdline.clone(),
+        desc: b.desc.clone(),
+        depfile: b.depfile.clone(),
+        parse_showincludes: b.parse_showincludes,
+        rspfile: b
+            .rspfile
+            .as_ref()
+            .map(|r| (r.path.to_string_lossy().into_owned(), r.content.clone())),
+        pool: b.pool.clone(),
+        hide_success: b.hide_success,
+        hide_progress: b.hide_progress,
+        discovered: names(b.discovered_ins()),
+        hash: hashes.and_then(|h| h.get(id)).map(|h| h.0),
+    }
+}
+
+pub(crate) fn dump_graph(graph: &Graph, hashes: Option<&Hashes>) -> GraphDump {
+    let mut d = GraphDump::default();
+    for fid in graph.files.all_ids() {
+        let f = graph.file(fid);
+        d.files.push((f.name.clone(), f.input.map(|b| b.index())));
+    }
+    for i in 0..graph.builds.next_id().index() {
+        d.builds.push(dump_build(graph, hashes, BuildId::from(i)));
+    }
+    d
+}
+
+pub(crate) fn counts_array(counts: &StateCounts) -> [usize; 6] {
+    use crate::work::BuildState::*;
+    [
+        counts.get(Want),
+        counts.get(Ready),
+        counts.get(Queued),
+        counts.get(Running),
+        counts.get(Done),
+        counts.get(Failed),
+    ]
+}
+
+/// Progress implementation that forwards to the installed harness.
+pub(crate) struct VerifProgress;
+
+impl Progress for VerifProgress {
+    fn update(&self, counts: &StateCounts) {
+        let c = counts_array(counts);
+        with(|h| h.progress_update(c));
+    }
+    fn task_started(&self, id: BuildId, _build: &Build) {
+        with(|h| h.progress_task_started(id.index()));
+    }
+    fn task_output(&self, id: BuildId, line: Vec<u8>) {
+        with(|h| h.progress_task_output(id.index(), &line));
+    }
+    fn task_finished(&self, id: BuildId, _build: &Build, result: &TaskResult) {
+        let t = term_to_sim(&result.termination);
+        with(|h| h.progress_task_finished(id.index(), t));
+    }
+    fn log(&self, msg: &str) {
+        with(|h| h.progress_log(msg));
+    }
+}
+
+/// Fault point in front of every db append (see `Harness::db_write`).
+pub(crate) fn db_write_hook(
+    signature: bool,
+    bytes: &[u8],
+    w: &mut impl std::io::Write,
+) -> std::io::Result<()> {
+    let kind = if signature {
+        DbWriteKind::Signature
+    } else if bytes.len() >= 2 && bytes[1] & 0x80 != 0 {
+        DbWriteKind::Build
+    } else {
+        DbWriteKind::Path
+    };
+    if let Some(Some(n)) = with(|h| h.db_write(kind, bytes)) {
+        let n = n.min(bytes.len());
+        w.write_all(&bytes[..n])?;
+        w.flush()?;
+        std::panic::panic_any(Abandon("db write fault"));
+    }
+    Ok(())
+}
+
+/// Facades over private helpers, for the function-level monitors.
+pub mod facade {
+    pub use crate::progress_fancy::verif_facade::{progress_bar, task_message, truncate};
+    pub use crate::task::verif_facade::{extract_showincludes, find_last_line, read_depfile};
+
+    /// Parse depfile bytes (no trailing NUL needed) into the flattened dep list.
+    pub fn parse_depfile_bytes(mut bytes: Vec<u8>) -> Result<Vec<String>, String> {
+        bytes.push(0);
+        let mut scanner = crate::scanner::Scanner::new(&bytes);
+        match crate::depfile::parse(&mut scanner) {
+            Ok(parsed) => Ok(parsed
+                .values()
+                .flat_map(|x| x.iter())
+                .map(|&dep| dep.to_owned())
+                .collect()),
+            Err(err) => {
+                Err(scanner.format_parse_error(std::path::Path::new("depfile"), err))
+            }
+        }
+    }
+
+    /// Parse depfile bytes into (target, deps) entries as n2 keeps them.
+    pub fn parse_depfile_entries(mut bytes: Vec<u8>) -> Result<Vec<(String, Vec<String>)>, String> {
+        bytes.push(0);
+        let mut scanner = crate::scanner::Scanner::new(&bytes);
+        match crate::depfile::parse(&mut scanner) {
+            Ok(parsed) => Ok(parsed
+                .iter()
+                .map(|(t, d)| (t.to_string(), d.iter().map(|s| s.to_string()).collect()))
+                .collect()),
+            Err(err) => {
+                Err(scanner.format_parse_error(std::path::Path::new("depfile"), err))
+            }
+        }
+    }
+}
